@@ -16,7 +16,7 @@ use crate::geom::{self, Lattice};
 use crate::statejson::{self, Params, ShapeSpec};
 
 pub const TITLE: &str = "Output is faithful: JSON round-trips and the SVG shows the same structure";
-pub const RULE: &str = "part roundtrip: states of both kinds, all groups and shapes, built with parameters from {in-range mixtures; cell parameters with arbitrary mantissa bits inside length 0.3..100, ratio 0.05..3, angle 0.05..pi-0.05; site parameters from raw finite f64 bit patterns, 17-significant-digit values, subnormals, +-0, the largest double}; oracle: s' = from_str(to_string(s)) re-serialises byte-identically, every number of the JSON tree is bit-identical (nothing missing or added), score() and relative_positions() are bit-identical. part svg: in-range states; every <use href=#mol transform=matrix(a b c d e f)> of as_svg() is parsed and the multiset of matrices must equal, each exactly once, the harness's own Cartesian placements (ITA table, own lattice) and their 8 nearest lattice translates (rel 1e-12), and the 9 cell outlines the lattice translates of the identity. part cli: the .json written by the real binary re-reads to a state whose SVG is byte-identical to the written .svg and whose JSON re-serialises byte-identically. Non-trivial = a parameter whose shortest decimal form has 17 significant digits, or a group with a mirror/glide; distinct by hash of the case.";
+pub const RULE: &str = "part roundtrip: states of both kinds, all groups and shapes, built with parameters from {in-range mixtures; cell parameters with arbitrary mantissa bits inside length 0.3..100, ratio 0.05..3, angle 0.05..pi-0.05; site parameters from raw finite f64 bit patterns, 17-significant-digit values, subnormals, +-0, the largest double}; oracle: s' = from_str(to_string(s)) re-serialises byte-identically, every number of the JSON tree is bit-identical (nothing missing or added), the parameters held in memory (read through the basis handles, not the serialiser) are bit-identical, score() and relative_positions() are bit-identical. part svg: in-range states; every <use href=#mol transform=matrix(a b c d e f)> of as_svg() is parsed and the multiset of matrices must equal, each exactly once, the harness's own Cartesian placements (ITA table, own lattice) and their 8 nearest lattice translates (rel 1e-12), and the 9 cell outlines the lattice translates of the identity. part cli: the .json written by the real binary re-reads to a state whose SVG is byte-identical to the written .svg and whose JSON re-serialises byte-identically. Non-trivial = a parameter whose shortest decimal form has 17 significant digits, or a group with a mirror/glide; distinct by hash of the case.";
 
 pub fn assumptions() -> Vec<&'static str> {
     vec!["states are built through serde_json::Value so that the values under test are exact before the first text serialisation", "shape coordinates inside the JSON are included in the bit-exact comparison"]
@@ -179,6 +179,11 @@ fn roundtrip<S: State + Serialize + DeserializeOwned + Positions>(template: S, p
     let v2 = serde_json::to_value(&s2).map_err(|e| e.to_string())?;
     if let Some(d) = diff(&v1, &v2, "state") {
         return Err(format!("JSON round trip changed a value: {}", d));
+    }
+    // the parameters held in memory, read through the basis handles (independent of the serialiser)
+    let (m1, m2) = (crate::probe::params_of_state(&s), crate::probe::params_of_state(&s2));
+    if m1.len() != m2.len() || m1.iter().zip(m2.iter()).any(|(a, b)| a.to_bits() != b.to_bits()) {
+        return Err(format!("the state read back holds parameters {:?}, the state that was written holds {:?}", m2, m1));
     }
     let text2 = serde_json::to_string(&s2).map_err(|e| e.to_string())?;
     if text1 != text2 {
